@@ -18,7 +18,7 @@ TOKEN_RE = re.compile(r"""
   | (?P<attr>\(\*(?!\s*\)).*?\*\))
   | (?P<directive>`[A-Za-z_][A-Za-z0-9_]*[^\n]*)
   | (?P<string>"(?:[^"\\]|\\.)*")
-  | (?P<number>(?:[0-9][0-9_]*)?\s*'[sS]?[bBoOdDhH]\s*[0-9a-fA-FxXzZ_?]+|[0-9][0-9_]*(?:\.[0-9]+)?)
+  | (?P<number>(?:[0-9][0-9_]*)?'[sS]?[bBoOdDhH][0-9a-fA-FxXzZ_?]+|[0-9][0-9_]*(?:\.[0-9]+)?)
   | (?P<sysid>\$[A-Za-z_][A-Za-z0-9_$]*)
   | (?P<id>[A-Za-z_][A-Za-z0-9_$]*|\\\S+)
   | (?P<op><<<|>>>|===|!==|<<|>>|<=|>=|==|!=|&&|\|\||~&|~\||~\^|\^~|\*\*|[-+*/%<>!~&|^?:=,;.()\[\]{}#@])
@@ -63,7 +63,10 @@ def parse_number(txt):
     digits = rest[1:]
     xz = bool(re.search(r"[xXzZ?]", digits))
     digits = re.sub(r"[xXzZ?]", "0", digits)
-    v = int(digits, base)
+    try:
+        v = int(digits, base)
+    except ValueError:
+        raise VerilogSyntaxError("illegal digit in based literal %r" % txt)
     width = int(w) if w else None
     if width is not None:
         v &= (1 << width) - 1
